@@ -25,13 +25,15 @@ ZC1   == ("@" :> N1("SOA", R(300, {1}))) @@ ("a" :> (N1("CNAME", R(300, {1})) @@
 ZA1   == ("@" :> N1("SOA", R(300, {1}))) @@ ("a" :> N1("A", R(600, {1})))
 \* an apex with SOA but no NS, and with NS but no SOA (check_origin)
 ZN1   == ("@" :> N1("NS", R(300, {1, 2}))) @@ ("a" :> N1("A", R(300, {2})))
+\* an EMPTY SOA rdataset at the apex (left by find_rdataset(create=True)): get_soa / check_origin
+ZE2   == ("@" :> (N1("SOA", EmptyRds) @@ N1("NS", R(300, {1})))) @@ ("a" :> N1("NSEC", R(300, {1})))
 MCInitTrim == {ZNone, ZC1, ZA1}
 MCInitTrim2 == {ZNone, ZC1}
 MCInitDeep == {ZNone, "a" :> (N1("CNAME", R(300, {1})) @@ N1("NSEC", R(300, {1})))}
-MCInitAll == {ZNone, ZApex, ZA, ZC, ZD, ZS, ZE, ZA1, ZN1}
+MCInitAll == {ZNone, ZApex, ZA, ZC, ZD, ZS, ZE, ZA1, ZN1, ZE2}
 MCInitSmall == {ZNone, ZA, ZC}
 MCInitMid == {ZA, ZC, ZD, ZE}
-MCInitQ == {ZNone, ZC, ZD, ZE, ZA1, ZN1}
+MCInitQ == {ZNone, ZC, ZD, ZE, ZA1, ZN1, ZE2}
 MCInitC == {ZC}
 MCInitA == {ZA}
 
